@@ -327,9 +327,23 @@ class Engine(object):
                     return True, [x for _, x in vals]
         return False, None
 
-    def fresh(self, ty, base, st):
-        """A fresh symbolic value of a declared type."""
+    def fresh(self, ty, base, st, ukey=None):
+        """A fresh symbolic value of a declared type.  ``ukey`` names the union choice that applies
+        to a union met inside the type (record field 'Cls.field' or 'param:name')."""
         k = ty[0]
+        if k == 'excunder':
+            ty = self.expand_type(ty)
+            k = ty[0]
+        if k == 'union':
+            choice = self.union_choice.get(ukey)
+            if choice is None:
+                raise Undecided('union type %r needs an alternative (entry_states), key %r' % (ty, ukey))
+            return self.fresh(ty[1][choice], base, st, ukey)
+        if k == 'exc':
+            cls = ty[1] if isinstance(ty[1], type) else self.exc_class(ty[1])
+            if cls is None:
+                raise Undecided('unknown exception class %r' % (ty[1],))
+            return VExc(cls, {}, tag='param')
         if k in ('int', 'bool', 'str', 'val'):
             return wrap(self.ctx.fresh(base, sort_of(ty)), ty)
         if k == 'none':
@@ -339,7 +353,7 @@ class Engine(object):
                 return st.alloc(HList(self.ctx.fresh(base, sort_of(ty)), ty[1]))
             raise Undecided('fresh list of %r' % (ty[1],))
         if k == 'tuple':
-            return VTuple([self.fresh(t, '%s_%d' % (base, i), st) for i, t in enumerate(ty[1])])
+            return VTuple([self.fresh(t, '%s_%d' % (base, i), st, ukey) for i, t in enumerate(ty[1])])
         if k == 'obj':
             fields = C.RECORDS.get(ty[1])
             if fields is None:
@@ -347,7 +361,8 @@ class Engine(object):
             vals = {}
             for f, fty in fields.items():
                 fty_p = parse_type(fty)
-                choice = self.union_choice.get('%s.%s' % (ty[1], f)) if fty_p[0] == 'union' else None
+                fkey = '%s.%s' % (ty[1], f)
+                choice = self.union_choice.get(fkey) if fty_p[0] == 'union' else None
                 if fty_p[0] == 'union':
                     if choice is None:
                         raise Undecided('union-typed field %s.%s needs an alternative (entry_states)' % (ty[1], f))
@@ -355,9 +370,9 @@ class Engine(object):
                 if fty_p[0] == 'opt':
                     # optional fields: represented by a pair (is-none flag, value)
                     vals[f] = VOptSym(self.ctx.fresh('%s_%s_isnone' % (base, f), BOOL),
-                                      self.fresh(fty_p[1], '%s_%s' % (base, f), st))
+                                      self.fresh(fty_p[1], '%s_%s' % (base, f), st, fkey))
                 else:
-                    vals[f] = self.fresh(fty_p, '%s_%s' % (base, f), st)
+                    vals[f] = self.fresh(fty_p, '%s_%s' % (base, f), st, fkey)
             return st.alloc(HInst(ty[1], vals))
         if k == 'map':
             ks, vs = sort_of(ty[1]), sort_of(ty[2])
@@ -371,13 +386,24 @@ class Engine(object):
         if k == 'const':
             return VStr(StrV(ty[1]))
         if k == 'opt':
-            return VOptSym(self.ctx.fresh(base + '_isnone', BOOL), self.fresh(ty[1], base, st))
+            return VOptSym(self.ctx.fresh(base + '_isnone', BOOL), self.fresh(ty[1], base, st, ukey))
         if k == 'dict':
             raise Undecided('fresh dict must be built by the contract (use record/initial state)')
         if k == 'set':
             arr = self.ctx.fresh(base, '(Array String Bool)')
             return st.alloc(HSet(arr))
         raise Undecided('cannot create fresh value of type %r' % (ty,))
+
+    def expand_type(self, ty):
+        """('excunder', Base) -> union of ('exc', cls): Base itself plus one representative subclass per
+        behaviour that the function under verification / its contract can distinguish."""
+        if ty[0] != 'excunder':
+            return ty
+        base = self.exc_class(ty[1])
+        if base is None:
+            raise Undecided('unknown exception class %r' % (ty[1],))
+        classes = [base] + list(self.subclasses_of(base))
+        return ('union', tuple(('exc', c) for c in classes))
 
     def seq_of(self, v, st):
         """Seq term and element type of a list-like value."""
@@ -664,7 +690,15 @@ class Engine(object):
     def ev_BoolOp(self, node, st):
         is_and = isinstance(node.op, ast.And)
         if self.pure:
-            vals = [self.ev1(v, st) for v in node.values]
+            vals = []
+            for vn in node.values:
+                v = self.ev1(vn, st)
+                vals.append(v)
+                # literal short circuit: later operands may be meaningless (guarded subscripts, attributes of None)
+                if isinstance(v, (VBool, VNone)):
+                    t = self.truthy(v, st)
+                    if t.lit is not None and t.lit[1] != is_and:
+                        break
             if all(isinstance(v, VBool) for v in vals):
                 ts = [v.t for v in vals]
                 return [(VBool(And(*ts) if is_and else Or(*ts)), st)]
@@ -721,6 +755,19 @@ class Engine(object):
         return out
 
     def binop(self, op, a, b, st, node=None):
+        for k, x in enumerate((a, b)):
+            if isinstance(x, VOptSym):
+                if self.pure:
+                    x = x.val
+                    a, b = (x, b) if k == 0 else (a, x)
+                    continue
+                out = []
+                for r, s in self._safe_result(Not(x.isnone), NONE, TypeError, st, node, name='operand-is-None'):
+                    if isinstance(r, Raised):
+                        out.append((r, s))
+                    else:
+                        out.extend(self.binop(op, x.val if k == 0 else a, b if k == 0 else x.val, s, node))
+                return out
         if isinstance(a, VBool) and isinstance(b, (VInt, VBool)) and not isinstance(op, (ast.BitAnd, ast.BitOr)):
             a = VInt(Ite(a.t, IntV(1), IntV(0)))
         if isinstance(b, VBool) and isinstance(a, VInt):
@@ -971,6 +1018,14 @@ class Engine(object):
         return idx, inrange
 
     def do_index(self, base, idx, st, node=None):
+        if isinstance(base, VOptSym):
+            if self.pure:
+                base = base.val     # spec level: an Optional stands for its value (None excluded by a guard)
+            else:
+                out = []
+                for r, s in self._safe_result(Not(base.isnone), NONE, TypeError, st, node, name='subscript-of-None'):
+                    out.extend([(r, s)] if isinstance(r, Raised) else self.do_index(base.val, idx, s, node))
+                return out
         if self.pure and isinstance(idx, VInt) and idx.t.s.startswith('q_') and ' ' not in idx.t.s:
             # spec level, index is a bound variable of an enclosing quantifier over a range
             # whose guard keeps it inside [0, len): plain element access (no negative wrap)
